@@ -208,6 +208,19 @@ class MethodExpander:
                         arg = self.ev(f, e.args[0], env)
                         return self._apply(w[0], arg).scale(c)
                 raise AnalysisError(f"{f.qualname}: unsupported application {norm(e)[:60]}")
+            # explicit call of a (base) class's method on self: Cls.method(self, state)
+            if isinstance(fn, ast.Attribute) and isinstance(fn.value, ast.Name) and fn.value.id in self.p.classes and e.args and isinstance(e.args[0], ast.Name) and e.args[0].id == "self" and fn.attr in self.expand:
+                g = self.p.classes[fn.value.id].resolve(fn.attr)
+                if g is None or g.is_abstract:
+                    raise AnalysisError(f"{f.qualname}: {norm(fn)} not resolved")
+                self.used.append(g.qualname)
+                self.depth += 1
+                if self.depth > 10:
+                    raise AnalysisError("expansion too deep")
+                try:
+                    return self._body(g, g.body_without_docstring(), {})
+                finally:
+                    self.depth -= 1
             if isinstance(fn, ast.Attribute) and is_self_attr(fn):
                 name = fn.attr
                 if name in self.expand and self.k.resolve(name) is not None and not self.k.resolve(name).is_property:
